@@ -48,3 +48,63 @@ def _get_path(c):
     )
     lp.measure("self.size - loop_cnt")
     lp.modifies("path", ("list", "int"))
+
+
+# ---------------------------------------------------------------- concrete reading (replay / bounded stand-in)
+CONCRETE = {}
+
+
+def _mk_links(raw):
+    from smpl_extract.util.fat import SectorLink
+    return [SectorLink(next=d["next"], end=bool(d["end"])) for d in raw]
+
+
+def _build_get_path(inputs):
+    from smpl_extract.util.fat import FileAllocationTable
+    links = _mk_links(inputs["self"]["sector_links"])
+    fat = FileAllocationTable(None, inputs["self"]["size"], links)
+    return {"call": fat.get_path, "args": [inputs["starting_sector"]],
+            "env": {"self": fat, "starting_sector": inputs["starting_sector"]}}
+
+
+def ref_walk(links, start):
+    """Reference reading of the property statement: follow the table from `start`.
+    Returns (status, chain): status in ok | out-of-range | cycle."""
+    seen, chain, cur = set(), [], start
+    while True:
+        if not (0 <= cur < len(links)):
+            return "out-of-range", chain
+        if cur in seen:
+            return "cycle", chain
+        seen.add(cur)
+        chain.append(cur)
+        if links[cur]["end"]:
+            return "ok", chain
+        cur = links[cur]["next"]
+
+
+def _oracle_get_path(inputs, kind, val, env):
+    links = inputs["self"]["sector_links"]
+    status, chain = ref_walk(links, inputs["starting_sector"])
+    bad = []
+    if status == "ok" and len(chain) <= inputs["self"]["size"]:
+        if kind != "return" or list(val) != chain:
+            bad.append("oracle.well-formed-chain-resolves-exactly")
+    return bad
+
+
+def _small_get_path(tier, seed):
+    import itertools
+    maxn = 3 if tier == "quick" else 4
+    for n in range(1, maxn + 1):
+        cells = [(nx, e) for nx in range(n + 1) for e in (False, True)]
+        for table in itertools.product(cells, repeat=n):
+            links = [{"next": nx, "end": e} for (nx, e) in table]
+            for s in range(n + 1):
+                yield {"self": {"size": n, "sector_links": links}, "starting_sector": s}
+
+
+CONCRETE["smpl_extract.util.fat:FileAllocationTable.get_path"] = {
+    "build": _build_get_path, "small": _small_get_path, "oracle": _oracle_get_path,
+    "bound": "all link tables of <= 3 (quick) / 4 (thorough) entries, next in 0..n (n = out of range), both end flags, every start 0..n",
+}
